@@ -23,7 +23,9 @@ def ssInRange (amp : Nat) (decimals amounts : List Nat) (offerIdx offer : Nat) :
   let mx := (listMax xs).getD 0
   let mn := (listMin xs).getD 0
   2 ≤ xs.length && xs.length ≤ 4 && 1 ≤ amp && amp ≤ 1000000 &&
-  decimals.all (fun d => d == 6 || d == 8 || d == 12 || d == 18) &&
+  -- (decimals above 18 — beyond what `Decimal256` can hold — are refused by the code: a quote that IS returned for
+  -- such a pool is judged like any other)
+  decimals.all (fun d => d == 6 || d == 8 || d == 12 || d == 18 || (18 < d && d ≤ 30)) &&
   0 < mn && mx ≤ 1000 * mn && 0 < offer && offer ≤ 5 * (amounts.getD offerIdx 0) &&
   -- "dust to 10^30 units"
   amounts.all (fun a => a ≤ 10 ^ 30)
@@ -44,6 +46,17 @@ def exactOutKShift (dShiftUnits : Nat) (amp : Nat) (decimals amounts : List Nat)
 def exactOutK (amp : Nat) (decimals amounts : List Nat) (offerIdx askIdx offer : Nat) : Nat :=
   exactOutKShift 0 amp decimals amounts offerIdx askIdx offer
 
+/-- the gross output the ORIGINAL algorithm (the model of `compute_swap`, tied to the code by the `swapmath` stream)
+    computes for this pool state and offer; fees do not enter the gross output -/
+def origGross (amp : Nat) (decimals before : List Nat) (offerIdx askIdx offer : Nat) : Option Nat :=
+  let denoms := (List.range before.length).map fun i => "d" ++ toString i
+  let p : PoolInfo := { id := "m", denoms := denoms, lpDenom := "lp", decimals := decimals,
+                        assets := (denoms.zip before).map (fun x => ⟨x.1, x.2⟩), ptype := .stable amp,
+                        fees := ⟨0, 0, 0, []⟩, status := default }
+  match computeSwap p ⟨denoms.getD offerIdx "", offer⟩ (denoms.getD askIdx "") with
+  | .ok c => some (c.ret + c.swapFee + c.protocolFee + c.burnFee + c.extraFees)
+  | .error _ => none
+
 /-- C19: |quoted gross − exact| ≤ 2 output units + value of 2 offer units (+0.01 unit numerical slack) -/
 def monSsQuote (amp : Nat) (decimals amounts : List Nat) (offerIdx askIdx offer gross : Nat) : Verdict :=
   if !ssInRange amp decimals amounts offerIdx offer then none else
@@ -58,20 +71,19 @@ def monSsQuote (amp : Nat) (decimals amounts : List Nat) (offerIdx askIdx offer 
   -- size of the reserve) the quote misses the stated bound by a small factor; the recorded class is
   -- "within 16x the bound + 10^-15 of the ask reserve"
   let tolKnown := 16 * (2 + offerUnitsInAsk) * scale + (amounts.getD askIdx 0) / 1000000000000000 * scale
-  firstFail [(gross ≤ amounts.getD askIdx 0, "C19-output-exceeds-reserve"),
-             (gross * scale ≤ exact + tolKnown && exact ≤ gross * scale + tolKnown, "C19-quote-accuracy"),
-             (gross * scale ≤ exact + tol && exact ≤ gross * scale + tol, "C19-quote-accuracy-minor")]
-
-/-- the gross output the ORIGINAL algorithm (the model of `compute_swap`, tied to the code by the `swapmath` stream)
-    computes for this pool state and offer; fees do not enter the gross output -/
-def origGross (amp : Nat) (decimals before : List Nat) (offerIdx askIdx offer : Nat) : Option Nat :=
-  let denoms := (List.range before.length).map fun i => "d" ++ toString i
-  let p : PoolInfo := { id := "m", denoms := denoms, lpDenom := "lp", decimals := decimals,
-                        assets := (denoms.zip before).map (fun x => ⟨x.1, x.2⟩), ptype := .stable amp,
-                        fees := ⟨0, 0, 0, []⟩, status := default }
-  match computeSwap p ⟨denoms.getD offerIdx "", offer⟩ (denoms.getD askIdx "") with
-  | .ok c => some (c.ret + c.swapFee + c.protocolFee + c.burnFee + c.extraFees)
-  | .error _ => none
+  -- finding F-18: the D solver works in Decimal256 with 18 fractional digits; for a pool whose highest precision is 18
+  -- one smallest unit IS one atomic of that type, so every floor inside a Newton step costs up to a whole unit and D ends
+  -- up hundreds of units off; on pools with small reserves (below 10^21 units, i.e. a thousand whole tokens) the quote
+  -- then misses the bound by large factors (observed: 442 units on an output of 2.5·10^8, amp 1).  Class: highest
+  -- precision 18 AND a reserve below 10^21 units AND the gross output is exactly the original algorithm's value
+  let smallest := (listMin (normBalances decimals amounts)).getD 0
+  let noGuardDigits := maxP == 18 && decide (smallest < 10 ^ 21) &&
+    origGross amp decimals amounts offerIdx askIdx offer == some gross
+  if !(gross ≤ amounts.getD askIdx 0) then some "C19-output-exceeds-reserve"
+  else if !(gross * scale ≤ exact + tolKnown && exact ≤ gross * scale + tolKnown) then
+    (if noGuardDigits then some "C19-quote-accuracy-18dec" else some "C19-quote-accuracy,C19-quote-accuracy-minor")
+  else if !(gross * scale ≤ exact + tol && exact ≤ gross * scale + tol) then some "C19-quote-accuracy-minor"
+  else none
 
 /-- C03: the exact invariant after the swap is at least the exact invariant before (compared at
     10^-6 of a highest-precision unit).  When it decreases, the cause is looked up: if the gross
@@ -120,6 +132,9 @@ def monSsSwapG (grossKnown : Bool) (amp : Nat) (decimals before : List Nat) (off
   -- (for a hop of a route only what LEFT the pool is observable: at most the original algorithm's gross output)
   let asOriginal := if grossKnown then og == some gross else (match og with | some g => decide (gross ≤ g) | none => false)
   if outOfRange && asOriginal then some "C03-ss-depegged-precision"
+  -- finding F-18 seen from C03: pools whose highest precision is 18 with small reserves — the Decimal256 D solver has no
+  -- guard digits, D is tens to hundreds of units off and the output can exceed the exact one by more than the classes above
+  else if maxP == 18 && decide (mn < 10 ^ 21) && asOriginal then some "C03-ss-18dec-precision"
   else some "C03-ss-invariant"
 
 def monSsSwap (amp : Nat) (decimals before : List Nat) (offerIdx askIdx offer gross out : Nat) : Verdict :=
